@@ -5,6 +5,8 @@
 #include <random>
 #include <set>
 #include <mutex>
+#include <condition_variable>
+#include <memory>
 #include "oneapi/tbb/collaborative_call_once.h"
 #include "oneapi/tbb/enumerable_thread_specific.h"
 #include "oneapi/tbb/combinable.h"
@@ -83,9 +85,87 @@ static int do_ets() {
     return 0;
 }
 
+// etsgrow: the growth window of the thread-id table.  An allocator passed to enumerable_thread_specific holds every thread that
+// allocates a table array (it has incremented my_count and read my_root, it has not yet published its array) until K threads are
+// inside, then releases them together: K threads grow the table at once, from a root that is 0-3 first accesses old.  Then every
+// thread accesses again (found in an older array -> re-inserted at the top), then the remaining threads arrive, one by one or in
+// further line-ups.  input: seed T pre K   output: the ets counters + DENSE = arrays filled above one half (white box).
+struct LineUp { std::mutex m; std::condition_variable cv; int want = 0, inside = 0; unsigned long gen = 0; };
+static LineUp* g_lineup = nullptr;
+template <class T> struct lineup_allocator {
+    using value_type = T;
+    lineup_allocator() = default;
+    template <class U> lineup_allocator(const lineup_allocator<U>&) {}
+    T* allocate(std::size_t n) {
+        // table arrays are allocated through the allocator rebound to a pointer-sized type; elements through padded element types (larger)
+        LineUp* L = g_lineup;
+        if (L && L->want > 1 && sizeof(T) <= sizeof(void*)) {
+            std::unique_lock<std::mutex> l(L->m);
+            unsigned long my = L->gen;
+            if (++L->inside >= L->want) { L->inside = 0; L->gen++; L->cv.notify_all(); }
+            else if (!L->cv.wait_for(l, std::chrono::milliseconds(20), [&] { return L->gen != my; })) { L->inside = 0; L->gen++; L->cv.notify_all(); }
+        }
+        return static_cast<T*>(::operator new(n * sizeof(T)));
+    }
+    void deallocate(T* p, std::size_t) { ::operator delete(p); }
+    template <class U> bool operator==(const lineup_allocator<U>&) const { return true; }
+    template <class U> bool operator!=(const lineup_allocator<U>&) const { return false; }
+};
+
+static int do_etsgrow() {
+    std::vector<i128> c; Out o; Watchdog wd(20.0);
+    while (read_case(c)) {
+        unsigned seed = (unsigned)c[0]; int T = (int)c[1]; int pre = (int)c[2]; int K = (int)c[3];
+        std::mt19937 r(seed);
+        LineUp L; g_lineup = &L;
+        std::atomic<int> inits{0}, moved{0};
+        typedef tbb::enumerable_thread_specific<long, lineup_allocator<long>> ets_t;
+        ets_t ets([&] { inits++; return 0L; });
+        std::vector<long*> addr(T, nullptr); std::vector<int> accesses(T, 0);
+        // every logical participant is its own OS thread that executes commands: 1 = access
+        struct Worker { std::mutex m; std::condition_variable cv; int cmd = 0; bool done = true; std::thread th; };
+        std::vector<std::unique_ptr<Worker>> w;
+        std::atomic<bool> quit{false};
+        for (int t = 0; t < T; ++t) { w.emplace_back(new Worker); Worker* me = w.back().get();
+            me->th = std::thread([&, t, me] { for (;;) { std::unique_lock<std::mutex> l(me->m); me->cv.wait(l, [&] { return me->cmd != 0 || quit.load(); }); if (quit.load() && me->cmd == 0) return;
+                me->cmd = 0; l.unlock();
+                bool exists = false; long& x = ets.local(exists);
+                if (accesses[t] == 0) { addr[t] = &x; if (exists) moved++; } else if (addr[t] != &x || !exists) moved++;
+                accesses[t]++; x += 1;
+                l.lock(); me->done = true; me->cv.notify_all(); } }); }
+        auto start = [&](int t) { std::lock_guard<std::mutex> l(w[t]->m); w[t]->done = false; w[t]->cmd = 1; w[t]->cv.notify_all(); };
+        auto finish = [&](int t) { std::unique_lock<std::mutex> l(w[t]->m); w[t]->cv.wait(l, [&] { return w[t]->done; }); };
+        wd.arm(&o);
+        int next = 0; long total = 0;
+        auto together = [&](int from, int to, int want) { L.want = want; for (int t = from; t < to; ++t) { start(t); total++; } for (int t = from; t < to; ++t) finish(t); L.want = 0; };
+        for (; next < pre && next < T; ++next) together(next, next + 1, 0);                 // a few first accesses, one after the other
+        while (next < T) {
+            int k = std::min(T - next, K > 0 ? K : 1 + (int)(r() % 8));
+            together(next, next + k, k);                                                     // k first accesses inside the growth window at once
+            next += k;
+            if (r() % 3) together(0, next, 0);                                               // everybody again: found below the root -> re-inserted at the top
+            if (K > 0 && r() % 2 && next < T) { together(next, next + 1, 0); next++; }       // a late single arrival
+        }
+        together(0, T, 0);
+        wd.disarm();
+        quit = true; for (auto& x : w) { { std::lock_guard<std::mutex> l(x->m); x->cv.notify_all(); } x->th.join(); }
+        g_lineup = nullptr;
+        std::set<long*> distinct(addr.begin(), addr.end());
+        long sum = 0, n = 0; for (auto& x : ets) { sum += x; n++; }
+        // white box: no array of the table is filled above one half (the code's own invariant: an empty slot ends every probe)
+        long dense = 0;
+        for (auto* a = ets.my_root.load(); a; a = a->next) { size_t used = 0; for (size_t i = 0; i < a->size(); ++i) if (!a->at(i).empty()) used++; if (2 * used > a->size()) dense++; }
+        o.word("SHARED"); o.put((long)T - (long)distinct.size()); o.word("MOVED"); o.put(moved.load()); o.word("INITS"); o.put(inits.load() - T);
+        o.word("ITER"); o.put(n - T); o.word("SUM"); o.put(sum - total); o.word("CSUM"); o.put(0); o.word("DENSE"); o.put(dense);
+        o.flush();
+    }
+    return 0;
+}
+
 int main(int argc, char** argv) {
     std::string m = argc > 1 ? argv[1] : "";
     if (m == "once") return do_once();
+    if (m == "etsgrow") return do_etsgrow();
     if (m == "ets") return do_ets();
     return 2;
 }
